@@ -496,6 +496,9 @@ def dispatch_branches(func, what):
         isinstance(s, ast.Expr) and isinstance(s.value, ast.Constant))]
     i = 0
     rest = []
+    while i < len(body) and not out and isinstance(
+            body[i], (ast.Assign, ast.AnnAssign)):
+        i += 1          # preparation before the dispatch
     while i < len(body):
         st = body[i]
         if not isinstance(st, ast.If):
@@ -985,6 +988,42 @@ def law_of(ctx, repo, fname, first_param_feature, want):
            f"{fname}: `{rv}` is not np.array({params[0]}, copy=..)",
            node=ds[0] if ds else f, label=f"{fname} operand",
            nontrivial=False)
+    # with inplace=True the very object that was passed is scaled: callers
+    # (get_emodulus on the LUT columns) discard the return value
+    why = None
+    if ok:
+        c_ = ds[0].value
+        fr = Fresh(repo)
+        cp = kwarg(c_, "copy")
+        v_t = fr.boolv(cp, fr.local_env(f, {"inplace": True})) \
+            if cp is not None else True
+        v_f = fr.boolv(cp, fr.local_env(f, {"inplace": False})) \
+            if cp is not None else True
+        extra = [kw.arg for kw in c_.keywords if kw.arg != "copy"] + (
+            ["positional"] if len(c_.args) > 1 else [])
+        rebind = [n for n in walk(f) if isinstance(
+            n, (ast.Assign, ast.AugAssign, ast.AnnAssign)) and any(
+            isinstance(t, ast.Name) and t.id == params[0]
+            for t in (n.targets if isinstance(n, ast.Assign)
+                      else [n.target]))]
+        if v_t is not False or v_f is not True:
+            why = (f"`{short(c_, 40)}` does not copy exactly when inplace "
+                   "is False")
+        elif extra:
+            why = (f"`{short(c_, 40)}` converts ({', '.join(extra)}): for "
+                   "input of another dtype a new array is scaled and the "
+                   "object passed with inplace=True stays unscaled")
+        elif rebind:
+            why = (f"`{short(rebind[0], 40)}` re-binds `{params[0]}` before "
+                   "the in-place scaling: when the conversion copies (other "
+                   "dtype, e.g. a float32 LUT) the object passed with "
+                   "inplace=True stays unscaled – get_emodulus discards the "
+                   "return value")
+    ctx.ob("R5.2", ok and why is None,
+           f"{fname}(inplace=True) scales the very object it was given "
+           "(no conversion or re-binding in between)" if ok and why is None
+           else f"{fname}: {why or 'operand not understood'}",
+           node=ds[0] if ds else f, label=f"{fname} in-place identity")
     # guard: skipped only when the factor is 1 – path condition of the
     # update: enclosing tests (with polarity) and the negation of every
     # earlier test whose branch returns
@@ -1095,6 +1134,16 @@ def r52(ctx, repo):
     for ft in ("area_um", "volume", "emodulus", "deform"):
         if ft not in seen:
             raise AnalysisError(f"scale_feature: no branch for '{ft}'")
+    reb = [n for n in walk(sf) if isinstance(n, (ast.Assign, ast.AugAssign))
+           and any(isinstance(t, ast.Name) and t.id == "data"
+                   for t in (n.targets if isinstance(n, ast.Assign)
+                             else [n.target]))]
+    ctx.ob("R5.2", not reb, "scale_feature passes the object it was given "
+           "(no conversion before the dispatch)" if not reb else
+           f"scale_feature: `{short(reb[0], 40)}` re-binds `data` before "
+           "the dispatch: an in-place request may act on a converted copy",
+           node=reb[0] if reb else sf,
+           key=f"{SCALE}::scale_feature::in-place identity")
 
 
 # ----------------------------------------------------------------------
@@ -1957,6 +2006,74 @@ def r56(ctx, repo):
                    key=f"{rel}::{q}::not memoised")
 
 
+def r56_builtin(ctx, repo):
+    """a built-in table cannot be shadowed by a registered one"""
+    glp = repo.func(LOAD, "get_lut_path")
+    internal = {"get_internal_lut_names_dict"} | {
+        n.targets[0].id for n in walk(glp) if isinstance(n, ast.Assign)
+        and isinstance(n.targets[0], ast.Name) and isinstance(
+            n.value, ast.Call) and call_name(
+            n.value) == "get_internal_lut_names_dict"}
+
+    def kind(test):
+        names = names_in(test)
+        if "EXTERNAL_LUTS" in names:
+            return "external"
+        if names & internal:
+            return "internal"
+        return None
+    order = []
+    for st in glp.body:
+        node = st
+        while isinstance(node, ast.If):
+            k = kind(node.test)
+            if k:
+                order.append((k, node))
+            node = node.orelse[0] if len(node.orelse) == 1 and isinstance(
+                node.orelse[0], ast.If) else None
+    kinds = [k for k, _ in order]
+    if "internal" not in kinds or "external" not in kinds:
+        raise AnalysisError("get_lut_path: lookup of built-in / registered "
+                            "identifiers not found")
+    ok = kinds.index("internal") < kinds.index("external")
+    ctx.ob("R5.6", ok,
+           "get_lut_path resolves a built-in identifier before it consults "
+           "the registered tables" if ok else
+           "get_lut_path consults the registered tables before the "
+           "built-in ones: a registered file can replace a built-in LUT",
+           node=order[kinds.index("external")][1].test,
+           label="built-in before registered")
+    reg = repo.func(LOAD, "register_lut")
+    stores = [n for n in walk(reg) if isinstance(n, ast.Assign) and any(
+        base_name(t) == "EXTERNAL_LUTS" and isinstance(t, ast.Subscript)
+        for t in n.targets)]
+    if len(stores) != 1 or not any(stores[0] is x for x in reg.body):
+        raise AnalysisError("register_lut: registration statement")
+    idx = [i for i, x in enumerate(reg.body) if x is stores[0]][0]
+    guard = None
+    for st in reg.body[:idx]:
+        node = st
+        while isinstance(node, ast.If):
+            if (names_in(node.test) & {"get_internal_lut_names_dict"}
+                    or any(call_name(c) == "get_internal_lut_names_dict"
+                           for c in ast.walk(node.test)
+                           if isinstance(c, ast.Call))) and any(
+                    isinstance(x, ast.Raise) for x in node.body) \
+                    and isinstance(node.test, ast.Compare) and isinstance(
+                        node.test.ops[0], ast.In):
+                guard = node
+            node = node.orelse[0] if len(node.orelse) == 1 and isinstance(
+                node.orelse[0], ast.If) else None
+    ctx.ob("R5.6", guard is not None,
+           "register_lut rejects the identifier of a built-in LUT on every "
+           "path before it registers" if guard is not None else
+           "register_lut does not reject built-in identifiers "
+           "unconditionally before `EXTERNAL_LUTS[identifier] = path`: a "
+           "user file can be registered under a built-in name",
+           node=guard.test if guard is not None else stores[0],
+           label="built-in identifiers rejected")
+
+
 # ----------------------------------------------------------------------
 # R5.7 – per-medium parameter tables of the viscosity models
 
@@ -2477,7 +2594,8 @@ def run(ctx):
              "scale_feature(inplace=False), griddata)", minimum=18)
     ctx.rule("R5.2", "scale laws are the monomials w^2, w^3, Q eta / w^3; "
              "guards skip only a factor of 1; scale_feature dispatch "
-             "forwards data and inplace", minimum=14)
+             "forwards data and inplace; inplace=True acts on the object "
+             "passed", minimum=18)
     ctx.rule("R5.3", "the per-event route is the inverse/forward pair of "
              "the global route's LUT scaling", minimum=6)
     ctx.rule("R5.4", "pixelation offset subtracted before scaling from the "
@@ -2488,8 +2606,9 @@ def run(ctx):
              "off by default", minimum=16)
     ctx.rule("R5.6", "no function on the call closure of get_emodulus "
              "inside the package writes module-level state; those that read "
-             "mutable module state (EXTERNAL_LUTS) are not memoised",
-             minimum=23)
+             "mutable module state (EXTERNAL_LUTS) are not memoised; a "
+             "built-in LUT cannot be shadowed by a registered one",
+             minimum=25)
     ctx.rule("R5.7", "per-medium material constants of each viscosity model "
              "are strictly monotone in the MC concentration (hence pairwise "
              "distinct) and a constant used twice denotes the same quantity "
@@ -2501,6 +2620,7 @@ def run(ctx):
     m = Model(repo)
     r51(ctx, repo, m)
     r56(ctx, repo)
+    r56_builtin(ctx, repo)
     r57(ctx, repo)
     r58(ctx, repo)
     r52(ctx, repo)
@@ -2592,9 +2712,41 @@ MUTANTS = [
       "KNOWN_MEDIA = sorted(SAME_MEDIA.keys())"), "R5.8"),
     ("alias not resolved before the dispatch", VISC,
      ("    medium = ALIAS_MEDIA[medium]\n\n", "\n"), "R5.8"),
+    ("registered tables consulted before the built-in ones", LOAD,
+     [("    elif path_or_id in internal_dict:\n",
+       "    elif path_or_id in EXTERNAL_LUTS:\n"
+       "        lut_path = EXTERNAL_LUTS[path_or_id]\n"
+       "    elif path_or_id in internal_dict:\n"),
+      ("    elif path_or_id in EXTERNAL_LUTS:\n"
+       "        lut_path = EXTERNAL_LUTS[path_or_id]\n    else:\n",
+       "    else:\n")], "R5.6"),
+    ("built-in identifiers only rejected when read from the file", LOAD,
+     [("                             + \"this function.\")\n",
+       "                             + \"this function.\")\n"
+       "        if identifier in get_internal_lut_names_dict():\n"
+       "            raise ValueError(\"in use by an internal LUT!\")\n"),
+      ("    elif identifier in get_internal_lut_names_dict():\n"
+       "        raise ValueError(\"The identifier '{}' is already \""
+       ".format(identifier)\n"
+       "                         + \"in use by an internal LUT!\")\n", "")],
+     "R5.6"),
     ("scale functions invert the inplace flag", SCALE,
      ("    copy = not inplace\n    if issubclass(area_um.dtype.type",
       "    copy = inplace\n    if issubclass(area_um.dtype.type"), "R5.1"),
+    ("modulus converted before the in-place scaling (seeded C05_10)",
+     SCALE,
+     ("    emodulus_corr = np.array(emodulus, copy=copy)\n",
+      "    emodulus = np.asarray(emodulus, dtype=float)\n"
+      "    emodulus_corr = np.array(emodulus, copy=copy)\n"), "R5.2"),
+    ("area converted to float in the copy step", SCALE,
+     ("    area_um_corr = np.array(area_um, copy=copy)\n",
+      "    area_um_corr = np.array(area_um, dtype=float, copy=copy)\n", 1),
+     "R5.2"),
+    ("dispatcher converts the data first", SCALE,
+     ("    if feat == \"area_um\":\n        return scale_area_um(",
+      "    data = np.asarray(data, dtype=float)\n"
+      "    if feat == \"area_um\":\n        return scale_area_um("),
+     "R5.2"),
     ("area scales linearly", SCALE,
      ("area_um_corr *= (channel_width_out / channel_width_in)**2",
       "area_um_corr *= (channel_width_out / channel_width_in)"), "R5.2"),
@@ -2769,6 +2921,9 @@ TWINS = [
      ("        deform_4lut = np.array(deform, dtype=float, copy=copy)",
       "        deform_4lut = np.asarray(np.array(deform, dtype=float,\n"
       "                                          copy=copy))")),
+    ("copy flag written inline", SCALE,
+     ("    volume_corr = np.array(volume, copy=copy)\n",
+      "    volume_corr = np.array(volume, copy=not inplace)\n")),
     ("area law written with explicit squares", SCALE,
      ("area_um_corr *= (channel_width_out / channel_width_in)**2",
       "area_um_corr *= channel_width_out * channel_width_out / "
